@@ -803,6 +803,7 @@ class _Sink:
         self.rng = ctx.rng
         self.violations = []
         self.notes = []
+        self.evaluations = 0
 
     def case(self, *a, **k):
         pass
